@@ -22,6 +22,7 @@ void Alloc::reset() {
     n_alloc = n_free = failed = 0;
     fail_at = -1;
     cur_tag = 0;
+    on_bad_free = nullptr;
 }
 
 void *Alloc::do_malloc(size_t n, bool zero) {
@@ -48,10 +49,12 @@ void Alloc::do_free(void *p) {
     if (!p) return;
     auto it = blocks.find((uintptr_t)p);
     if (it == blocks.end()) {
+        if (on_bad_free) on_bad_free(p, false, 0);
         const Block *in = find(p);
         violation("C04", in ? "free-interior-pointer" : "free-foreign-pointer",
                   "free() of a pointer the allocator never returned%s", in ? " (points inside a block)" : "");
     }
+    if (it->second.freed && on_bad_free) on_bad_free(p, true, it->second.tag);
     if (it->second.freed) violation("C04", "double-free", "block of %zu bytes freed twice", it->second.size);
     it->second.freed = true;
     it->second.free_gseq = R->gseq;
